@@ -3,6 +3,8 @@ package checks
 import (
 	"fmt"
 	"math/bits"
+	"os"
+	"os/exec"
 
 	"github.com/akalin/gopar/gf2"
 	"github.com/akalin/gopar/gf2p16"
@@ -28,7 +30,7 @@ func init() {
 	register(&c08{base{
 		id:    "C08",
 		level: lvlExploration,
-		rule: "times/div: every one of the 2^32 operand pairs (case = block of 1024 constants x all 65536 values) compared with a shift-and-xor reference; inverse: all 65535 elements; pow: all 65536 bases x a fixed exponent list (quick) plus the full chain a^(p+1)=a^p*a for p<=65536 (thorough); Poly64: all single-bit pairs, boundary degrees and seeded random pairs. A key is one (operation, operand block); blocks are disjoint, so distinct_nontrivial counts distinct blocks and monitor_counters.pairs_* count the operand pairs actually compared",
+		rule: "times/div: every one of the 2^32 operand pairs (case = block of 1024 constants x all 65536 values) compared with a shift-and-xor reference; inverse: all 65535 elements; pow: all 65536 bases x a fixed exponent list (quick) plus the full chain a^(p+1)=a^p*a for p<=65536 (thorough); Poly64: all single-bit pairs, boundary degrees and seeded random pairs; each operation also as the first field operation of a fresh process that imports only gf2p16. A key is one (operation, operand block); blocks are disjoint, so distinct_nontrivial counts distinct blocks and monitor_counters.pairs_* count the operand pairs actually compared",
 		assumptions: append([]string{"reference field arithmetic: internal/ref/gf16 (carry-less shift-and-xor product reduced by 0x1100B, extended Euclid inverse, square-and-multiply power)"}, commonAssumptions...),
 		opts:        core.WorkerOpts{CrashIsViolation: true, WallSeconds: 3000, CPUSeconds: 150, CPULimitIsViolation: true, Exhaustive: true, Extra: map[string]interface{}{"exhaustive_subspace": "all 2^32 pairs for Times and Div, all 65535 inverses"}},
 	}})
@@ -47,6 +49,7 @@ func (c *c08) Cases(tier string, seed int64) []core.Case {
 		cs = append(cs, core.MkCase(fmt.Sprintf("pow[%d,%d)", lo, lo+pblk), c08Params{Op: "pow", Lo: lo, Hi: lo + pblk, Seed: seed, Chain: tier == "thorough"}))
 	}
 	cs = append(cs, core.MkCase("poly-structured", c08Params{Op: "poly-structured"}))
+	cs = append(cs, core.MkCase("fresh-process-first-operation", c08Params{Op: "fresh", Seed: seed}))
 	n := 250000
 	k := 8
 	if tier == "thorough" {
@@ -266,6 +269,26 @@ func (c *c08) Run(cs core.Case) core.Result {
 			}
 		}
 		r.Sample(map[string]interface{}{"op": "Pow", "bases": []int{p.Lo, p.Hi}, "exponents": es[:12], "n_exponents": len(es)})
+	case "fresh":
+		// Each operation as the FIRST use of the field in a fresh process that
+		// imports nothing else of gopar: table construction must not depend on
+		// which operation happens to come first.
+		exe := os.Getenv("VW_FRESH_EXE")
+		if exe == "" {
+			r.Inconclusive("vwfresh not built")
+			return r.Done()
+		}
+		for _, op := range []string{"div", "times", "inverse", "pow", "mulslice", "muladdslice"} {
+			for k := 0; k < 2; k++ {
+				out, err := exec.Command(exe, op, fmt.Sprint(p.Seed+int64(k))).CombinedOutput()
+				r.Count("fresh_processes", 1)
+				if err != nil {
+					r.Violate("wrong-result-as-first-operation|"+op, "%s as the first field operation of a fresh process: %v\n%s", op, err, tailStr(string(out), 600))
+				}
+				r.Key("fresh|%s|%d", op, k)
+			}
+		}
+		r.Sample(map[string]interface{}{"op": "first operation in a fresh process", "operations": []string{"div", "times", "inverse", "pow", "mulslice", "muladdslice"}})
 	case "poly-structured":
 		for i := 0; i < 64; i++ {
 			for j := 0; j < 64; j++ {
